@@ -259,7 +259,14 @@ func (m *Manager) AddBlocks(blocks []types.Block) error {
 			// already have this block
 			cs, _ = m.store.State(bid)
 			continue
-		} else if b.ParentID != cs.Index.ID {
+		} else if bcs, ok := m.store.State(bid); ok {
+			if index, ok := m.store.BestIndex(bcs.Index.Height); ok && index.ID == bid {
+				// already applied; its body has been pruned
+				cs = bcs
+				continue
+			}
+		}
+		if b.ParentID != cs.Index.ID {
 			if cs, ok = m.store.State(b.ParentID); !ok {
 				return fmt.Errorf("missing parent state for block %v", bid)
 			}
